@@ -28,6 +28,16 @@ def descriptor_job(job):
         if not sdk.is_dynamic():
             facts["static_len"] = (spec.byte_length_static(), sdk.byte_len())
             facts["static_len_model"] = (T.static_len(t), sdk.byte_len())
+        # the other two ways PyTeal obtains a type descriptor: from the reference codec's type object and from signature text
+        import pyteal as pt
+        if t[0] != "ntuple" and "ntuple" not in str(t):
+            via_sdk = pt.abi.type_spec_from_algosdk(sdk)
+            facts["str_from_algosdk"] = (str(via_sdk), str(sdk))
+            facts["dynamic_from_algosdk"] = (via_sdk.is_dynamic(), sdk.is_dynamic())
+            if not sdk.is_dynamic():
+                facts["static_len_from_algosdk"] = (via_sdk.byte_length_static(), sdk.byte_len())
+            args, ret = pt.abi.type_specs_from_signature("m(%s,uint64)%s" % (sdk, sdk))
+            facts["str_from_signature"] = ((str(args[0]), str(args[1]), str(ret)), (str(sdk), "uint64", str(sdk)))
         bad = {k: v for k, v in facts.items() if v[0] != v[1]}
         if bad:
             out["violations"].append({"kind": "descriptor", "type": T.T_str(t), "job": job, "mismatch": to_json(bad)})
